@@ -31,6 +31,7 @@ StateDiff(e, o) ==
   \cup FieldDiff(<<"wrk">>, e.wrk, o.wrk, {"p", "next"}) \cup ChDiff("wrk", e, o)
   \cup FieldDiff(<<"bcn">>, e.bcn, o.bcn, {"p", "next"}) \cup ChDiff("bcn", e, o)
   \cup FieldDiff(<<"str">>, e.str, o.str, {"p", "s"})
+  \cup (IF e.vest # o.vest THEN {<<"vest">>} ELSE {})
   \cup (IF e.halted # o.halted THEN {<<"halted">>} ELSE {})
   \cup (IF e.time # o.time THEN {<<"time">>} ELSE {})
 
@@ -55,6 +56,7 @@ DiffProps(d, ev) ==
     [] d[1] \in {"wrk", "bcn"} -> (IF d[2] = "p" THEN {"C16"} ELSE IF d[2] = "next" THEN {"C09"} ELSE {})
     [] d[1] = "str" -> (IF d[2] = "p" THEN {"C16"} ELSE {"C10", "C11"})
     [] d[1] = "halted" -> {"C14"}
+    [] d[1] = "vest" -> {"C05"}
     [] d[1] = "outs" -> {"C09", "C07", "C11"}
     [] OTHER -> {}
 \* chain-record diffs carry the path <<k, "ch", i, field>>
@@ -79,6 +81,13 @@ StateMonitors(o) ==
   \cup (IF ~RegistryOk(o, "wrk") THEN {<<"C08", "RegistryOkWrk">>} ELSE {})
   \cup (IF ~RegistryOk(o, "bcn") THEN {<<"C08", "RegistryOkBcn">>} ELSE {})
   \cup (IF ~StoredParamsValid(o) THEN {<<"C16", "StoredParamsValid">>} ELSE {})
+  \cup (IF ~SpendableConsistent(o) THEN {<<"C05", "SpendableConsistent">>} ELSE {})
+  \cup (IF "q" \in DOMAIN o
+        THEN (IF ~SupplyOfOk(o) THEN {<<"C17", "SupplyOf">>} ELSE {})
+             \cup (IF ~StakeSupplyUnchanged(o) THEN {<<"C17", "OtherDenomUnchanged">>} ELSE {})
+             \cup (IF ~EntSupplyOk(o) THEN {<<"C17", "EnterpriseSupply">>} ELSE {})
+             \cup (IF ~PagesOk(o) THEN {<<"C17", "TotalSupplyPages">>} ELSE {})
+        ELSE {})
 
 \* monitors that need the spec-kept history (aux) next to the observed state
 HistMonitors(o, ax) ==
@@ -101,6 +110,9 @@ StepMonitors(s, t, ev) ==
   \cup (IF ~C04Step(s, t, ev) THEN {<<"C04", "EscrowOnlyByCompletionOrUnlock">>} ELSE {})
   \cup (IF ~C02Step(s, t, ev) THEN {<<"C02", "MintOnlyByCompletion">>} ELSE {})
   \cup (IF ~C05Step(s, t, ev) THEN {<<"C05", "LockedDropsOnlyByFeeTx">>} ELSE {})
+  \cup (IF ~CompletionDoesNotRaiseSpendable(s, t, ev)
+        THEN (IF OnlyVestingPurchaserRise(s, t, ev) THEN {<<"C05", "CompletionRaisesSpendableOfVestingPurchaser">>}
+              ELSE {<<"C05", "CompletionDoesNotRaiseSpendable">>}) ELSE {})
   \cup (IF ~NoRewrite(s, t) THEN {<<"C07", "NoRewrite">>} ELSE {})
   \cup (IF ~AppendOnly(s, t, ev) THEN {<<"C07", "AppendOnly">>, <<"C08", "AppendOnly">>} ELSE {})
   \cup (IF ~LimitChangesOnlyByOwnerPurchase(s, t, ev) THEN {<<"C08", "LimitChangesOnlyByOwnerPurchase">>} ELSE {})
@@ -130,6 +142,9 @@ Judge(i) ==
      \cup { <<i, "L1", m[1], m[2]>> : m \in StepMonitors(Trace[i - 1].post, ev.post, evm) }
      \cup { <<i, "L1", m[1], m[2]>> : m \in HistMonitors(ev.post, exp.st.aux) }
      \cup (IF ~FailedTxKeepsState(Trace[i - 1].post, ev.post, evm, ev.res.ok) THEN {<<i, "L1", "C14", "FailedTxKeepsState">>} ELSE {})
+     \cup (IF "mints" \in DOMAIN ev.res /\ \E d \in Denoms : ev.res.mints[d] - ev.res.burns[d] # ev.post.supply[d] - Trace[i - 1].post.supply[d]
+           THEN {<<i, "L1", "C02", "MintBurnEventsMatchSupplyDelta">>} ELSE {})
+     \cup (IF "burns" \in DOMAIN ev.res /\ \E d \in Denoms : ev.res.burns[d] # 0 THEN {<<i, "L1", "C02", "UnexpectedBurn">>} ELSE {})
      \cup (IF HasStreamMsg(evm) /\ exp.ok /\ ~ev.res.ok THEN {<<i, "L1", "C12", "StreamOperationRefused">>} ELSE {})
      \cup (IF HasStreamMsg(evm) /\ ev.res.panic THEN {<<i, "L1", "C12", "StreamOperationPanicked">>} ELSE {})
 
